@@ -1,6 +1,7 @@
 package exif2
 
 import (
+	"bufio"
 	"io"
 
 	"github.com/evanoberholster/imagemeta/exif2/ifds"
@@ -108,12 +109,27 @@ func (ir *ifdReader) ResetReader(r io.Reader) {
 	ir.po = 0
 }
 
-// readError remembers that the underlying reader has reached its end so
-// that the remaining tags are not read one by one from an exhausted reader.
+// readError remembers that the underlying reader has reached its end, or
+// has failed, so that the remaining tags are not read one by one from an
+// exhausted or broken reader.
 func (ir *ifdReader) readError(err error) {
-	if err == io.EOF || err == io.ErrUnexpectedEOF {
+	switch err {
+	case nil, bufio.ErrBufferFull, bufio.ErrNegativeCount:
+		// the request did not fit the look-ahead window: the source is intact
+		return
+	case io.EOF, io.ErrUnexpectedEOF:
 		ir.eof = true
+		return
 	}
+	// Any other error of a plain reader or of a bufio.Reader is the failure of
+	// the source (it would be returned again and again); other buffered
+	// readers report their own bounds this way.
+	if br, ok := ir.reader.(BufferedReader); ok {
+		if _, ok = br.(*bufio.Reader); !ok {
+			return
+		}
+	}
+	ir.eof = true
 }
 
 // SetCustomTagParser sets a custom tag parser
